@@ -35,3 +35,17 @@ def replay_roundtrip(msg, enc, hexbm, cfg):
     if extra:
         return True, 'extra keys %s' % extra, 'C01/extra'
     return False, 'ok', None
+
+
+def replay_reconfig(msgs, cfgs, enc, hexbm):
+    """one configuration dict object, edited in place between the uses"""
+    import copy
+    cfg = {}
+    res = (False, 'ok', None)
+    for m, c in zip(msgs, cfgs):
+        cfg.clear()
+        cfg.update(copy.deepcopy(c))
+        res = replay_roundtrip(m, enc, hexbm, cfg)
+        if res[0]:
+            return res
+    return res
